@@ -422,10 +422,7 @@ func (s *sim) setup(w []string) string {
 	if err != nil {
 		return "err:quota:" + proto.Enc(err.Error())
 	}
-	groups := map[string]any{}
-	for p := 0; p <= 20; p++ {
-		groups[fmt.Sprintf("g%d", p)] = p
-	}
+	groups := prioGroups()
 	md := &stream_types.ProcessorMetaData{
 		Name:         "queue" + quotaID,
 		SharedMemory: &stateProbe{SharedStateI: lunar_context.NewMemoryState[string]().WithClock(stateClock), w: s.w},
@@ -522,10 +519,7 @@ func (s *sim) setup2(w []string) string {
 	if err != nil {
 		return "err:quota:" + proto.Enc(err.Error())
 	}
-	groups := map[string]any{}
-	for p := 0; p <= 20; p++ {
-		groups[fmt.Sprintf("g%d", p)] = p
-	}
+	groups := prioGroups()
 	shared := &stateProbe{SharedStateI: lunar_context.NewMemoryState[string]().WithClock(s.mock), w: s.w}
 	res := &resProbe{inner: rm, w: s.w}
 	for pi := 0; pi < 2; pi++ {
@@ -779,6 +773,9 @@ func (s *sim) setupEngine(size, ttl, max, win, t0 int64, pre, qf, conc bool) str
 	for p := 0; p <= 20; p++ {
 		fmt.Fprintf(&groups, "          g%d: %d\n", p, p)
 	}
+	for _, p := range bigPrios {
+		fmt.Fprintf(&groups, "          g%d: %d\n", p, p)
+	}
 	procs, start := "", engineStartDirect
 	if pre {
 		procs, start = engineTransformProc, engineStartViaTransform
@@ -1020,7 +1017,7 @@ func (s *sim) parsePrio(w []string) (string, bool) {
 		return p, true
 	}
 	n, err := strconv.Atoi(p)
-	return p, err == nil && n >= 0 && n <= 20
+	return p, err == nil && prioAllowed(n)
 }
 
 func (s *sim) arrive(w []string, gated bool) string {
@@ -1548,6 +1545,33 @@ func (s *sim) close() {
 
 var maxLatAll time.Duration
 
+// priority values the harness configures as priority groups g<p>: 0..20 and a few large ones (the queue
+// orders by the priority NUMBER whatever its size; 999 is what a request without the header gets)
+var bigPrios = []int{100, 101, 150, 300, 500, 998}
+
+func prioAllowed(n int) bool {
+	if n >= 0 && n <= 20 {
+		return true
+	}
+	for _, b := range bigPrios {
+		if n == b {
+			return true
+		}
+	}
+	return false
+}
+
+func prioGroups() map[string]any {
+	groups := map[string]any{}
+	for p := 0; p <= 20; p++ {
+		groups[fmt.Sprintf("g%d", p)] = p
+	}
+	for _, p := range bigPrios {
+		groups[fmt.Sprintf("g%d", p)] = p
+	}
+	return groups
+}
+
 // ---------------------------------------------------------------- level L1: the shared queue alone
 
 // queueOp drives the real in-memory shared queue (lunar_context.NewMemoryQueue) directly.
@@ -2032,6 +2056,9 @@ func genPrio(r *prng.R, spread int) string {
 	if r.Chance(8) {
 		return "none"
 	}
+	if r.Chance(12) {
+		return strconv.Itoa(prng.Pick(r, bigPrios)) // large priority numbers order like small ones
+	}
 	return strconv.Itoa(r.Intn(spread))
 }
 
@@ -2249,7 +2276,7 @@ func genQueueRandom(r *prng.R) []string {
 	ops := []string{"qnew"}
 	next := 0
 	var present, popped []int
-	spread := prng.Pick(r, []int{2, 4, 50})
+	spread := prng.Pick(r, []int{2, 4, 50, 1200})
 	prio := map[int]int{}
 	for n := r.Range(10, 60); n > 0; n-- {
 		switch c := r.Intn(10); {
@@ -2424,7 +2451,7 @@ func genEngine(r *prng.R) []string {
 			if r.Chance(35) {
 				ops = append(ops, fmt.Sprintf("nudge ms=%d", prng.Pick(r, []int{20, 60, 60, 90})))
 			}
-			ops = append(ops, fmt.Sprintf("arrive id=%d prio=%s", id, strconv.Itoa(prng.Pick(r, []int{1, 3, 5, 5, 8}))))
+			ops = append(ops, fmt.Sprintf("arrive id=%d prio=%s", id, strconv.Itoa(prng.Pick(r, []int{1, 3, 5, 5, 8, 150, 300}))))
 			id++
 		} else {
 			ops = append(ops, "tick")
@@ -2560,6 +2587,10 @@ func gen(r *prng.R, f proto.Flags, emit func(proto.Case)) {
 			}
 		})
 	}
+	// ... priority numbers on both sides of 100 and far above it (no removal needed: plain order)
+	permutations([]int{90, 100, 101, 300, 999}, func(p []int) {
+		add("qb", queueEnumCase(p, 0, true))
+	})
 	// ... with two equal priorities and a re-enqueue after the removal
 	permutations([]int{10, 20, 20, 30, 40}, func(p []int) {
 		for rm := 0; rm < 5; rm++ {
